@@ -59,6 +59,30 @@ def check(repo: Repo, R) -> None:
     testbench(repo, R, noret)
     numeric(repo, R)
     field_coverage(repo, R)
+    rule = "C17.4-order-multiplicity-names"
+    fsd = repo.func(F_SIMDATA, "sim")
+    loops = [n for n in au.walk_no_nested(fsd.node) if isinstance(n, ast.For) and ast.unparse(n.iter) == "cls.__dict__.items()" and isinstance(n.target, ast.Tuple) and len(n.target.elts) == 2]
+    ok = False
+    if len(loops) == 1:
+        kv, vv = [ast.unparse(x) for x in loops[0].target.elts]
+        named = pat.find(f"{vv}.name = {kv}", loops[0])
+        apps = pat.find(f"$A.append({vv})", loops[0])
+        reb = [st for st in ast.walk(loops[0]) if isinstance(st, (ast.Assign, ast.AugAssign)) and any(isinstance(x, ast.Name) and x.id == vv and isinstance(x.ctx, ast.Store) for x in ast.walk(st))]
+        ok = len(named) == 1 and len(apps) >= 1 and not reb
+    R.check(ok, rule, key_of(fsd), fsd.site, f"the @sim decorator names each class-body attribute itself (the object other attributes refer to), not a copy, and collects that same object: {ok}",
+            why="attributes that refer to other class-level attributes (a Dc over a Param, a sweep over inner analyses) keep unnamed originals: they are exported with empty or generated names")
+    fadd = repo.func(F_SIMDATA, "Sim.add")
+    lp = [n for n in au.walk_no_nested(fadd.node) if isinstance(n, ast.For) and ast.unparse(n.iter) == "attrs"]
+    ok = False
+    if len(lp) == 1:
+        av = ast.unparse(lp[0].target)
+        apps = pat.find(f"self.attrs.append({av})", lp[0])
+        skip = [x for x in ast.walk(lp[0]) if isinstance(x, (ast.Continue, ast.Break))]
+        # appended under nothing but the kind check
+        conds = [ast.unparse(t) for c, _b in apps for t, _p in shared.path_conditions(fadd.node, c)]
+        ok = len(apps) == 1 and not skip and all(t == f"is_simattr({av})" for t in conds)
+    R.check(ok, rule, key_of(fadd), fadd.site, f"Sim.add appends every attribute it is given, once each, in order (no de-duplication by value): {ok}",
+            why="a second analysis / save / measurement that compares equal to an earlier one is silently dropped from the simulation input")
     R.floor("C17.1-dispatch-complete", 20)
     R.floor("C17.8-field-coverage", 12)
 
